@@ -132,6 +132,28 @@ fn canon_of(ret: &Value, export: &Value, cfg: &CtxCfg) -> Option<Value> {
     }
 }
 
+/// the schema with the literal "" read as the literal 0 (see the collision finding)
+fn zero_for_empty_string(v: &Value) -> Value {
+    match v {
+        Value::Array(a) => Value::Array(a.iter().map(zero_for_empty_string).collect()),
+        Value::Object(o) => {
+            if o.get("enum") == Some(&json!([""])) && o.get("type") == Some(&json!("string")) {
+                let mut m = o.clone();
+                m.insert("enum".into(), json!([0]));
+                m.insert("type".into(), json!("number"));
+                return Value::Object(m);
+            }
+            if o.get("const") == Some(&json!("")) {
+                let mut m = o.clone();
+                m.insert("const".into(), json!(0));
+                return Value::Object(m);
+            }
+            Value::Object(o.iter().map(|(k, x)| (k.clone(), zero_for_empty_string(x))).collect())
+        }
+        other => other.clone(),
+    }
+}
+
 pub struct C16;
 
 impl Check for C16 {
@@ -166,6 +188,14 @@ impl Check for C16 {
         let mut roots: Vec<(String, D)> = roots.into_iter().enumerate().map(|(i, d)| (format!("P{}", i), d)).collect();
         for i in 0..env.defs.len() {
             roots.push((format!("N{}", i), D::Ref(i)));
+        }
+        // near-duplicates: one-edit variants of roots and definitions (an optionality flipped, a literal changed, ...).
+        // Definitions the context names by a structural hash must not be shared between types that differ
+        let n_base = roots.len();
+        for k in 0..s.range(0, 2) {
+            let src_d = if !env.defs.is_empty() && s.chance(1, 2) { env.get(s.below(env.defs.len())).clone() } else { roots[s.below(n_base)].1.clone() };
+            let m = crate::den::mutate_type(&src_d, s, &cfg, env.defs.len());
+            roots.push((format!("M{}", k), m));
         }
         let (program, rendered) = render_program(&env, &roots, RenderCfg::all(), s, "");
         let names: Vec<String> = roots.iter().map(|r| r.0.clone()).collect();
@@ -257,12 +287,29 @@ impl Check for C16 {
                     }
                 }
             }
+            let collision = !which.is_empty()
+                && which.iter().all(|k| {
+                    k.starts_with("Discriminated")
+                        && match (d1.and_then(|m| m.get(k)), d2.and_then(|m| m.get(k))) {
+                            (Some(x), Some(y)) => zero_for_empty_string(x) == zero_for_empty_string(y),
+                            _ => false,
+                        }
+                });
+            if collision {
+                out.mismatch(
+                    ctx,
+                    "c16_synthetic_name_collision_empty_string_vs_zero",
+                    format!("definitions {:?} are shared by different unions whose 32-bit hashes collide (\"\" and 0 both hash to 0); which body is exported depends on the call order", which),
+                    detail(json!({"export_h1": e1, "export_h2": e2, "differing": which})),
+                );
+            } else {
             raw.push((
                 "c16_export_depends_on_history".to_string(),
                 format!("exported definitions differ between two histories over the same parsers (definitions {:?})", which),
                 detail(json!({"export_h1": e1, "export_h2": e2, "differing": which})),
                 which.iter().all(|k| k.starts_with("Discriminated") || d1.map(|m| m.contains_key(k)).unwrap_or(false) != d2.map(|m| m.contains_key(k)).unwrap_or(false)),
             ));
+            }
         }
         let defs1 = match defs_of(e1, &case.cfg) {
             Some(d) => d.clone(),
@@ -290,6 +337,16 @@ impl Check for C16 {
                         detail(json!({"parser": p, "definition": name, "fresh": body, "export_h1": e1})),
                         true,
                     )),
+                    Some(shared) if shared != body && name.starts_with("Discriminated") && zero_for_empty_string(shared) == zero_for_empty_string(body) => {
+                        // the 32-bit hash() that names synthetic variant definitions is 0 for both the literal "" and
+                        // the literal 0, so two unions that differ only there share their definition names
+                        out.mismatch(
+                            ctx,
+                            "c16_synthetic_name_collision_empty_string_vs_zero",
+                            format!("definition {} is shared by two different unions whose 32-bit hashes collide (\"\" and 0 both hash to 0); printing {} alone gives another body", name, p),
+                            detail(json!({"parser": p, "definition": name, "fresh": body, "shared": shared})),
+                        );
+                    }
                     Some(shared) if shared != body => raw.push((
                         "c16_definition_differs_from_fresh_context".to_string(),
                         format!("definition {} in the shared context differs from the one a fresh context produces (printing {} alone)", name, p),
